@@ -624,6 +624,37 @@ def get_procedure_symbol_from_typebound_procedure_symbol(proc_symbol, routine_na
     return None
 
 
+def insert_passed_object_argument(proc_symbol, new_proc_symbol, arguments):
+    """
+    Utility routine that adds the object a typebound procedure is invoked on to the
+    argument list :data:`arguments`, honouring the ``NOPASS`` and ``PASS(name)``
+    attributes of the procedure binding.
+    """
+    passed_object = proc_symbol.parent
+
+    # Find the declaration of the procedure binding to determine the PASS attribute
+    pass_attr = proc_symbol.type.pass_attr
+    try:
+        binding = passed_object.type.dtype.typedef.variable_map[proc_symbol.name_parts[-1]]
+        pass_attr = binding.type.pass_attr
+    except (AttributeError, KeyError):
+        pass
+
+    if pass_attr is False:
+        # NOPASS: The object is not an argument of the procedure
+        return arguments
+
+    if isinstance(pass_attr, str):
+        # PASS(name): The object is associated with the dummy argument of that name
+        procedure = getattr(new_proc_symbol.type.dtype, 'procedure', None)
+        argnames = [str(a).lower() for a in getattr(procedure, 'argnames', ())]
+        if pass_attr.lower() in argnames:
+            idx = min(argnames.index(pass_attr.lower()), len(arguments))
+            return arguments[:idx] + (passed_object,) + arguments[idx:]
+
+    return (passed_object,) + arguments
+
+
 class TypeboundProcedureCallTransformer(Transformer):
     """
     Transformer to carry out the replacement of subroutine and inline function
@@ -673,7 +704,9 @@ class TypeboundProcedureCallTransformer(Transformer):
 
             if new_proc_symbol:
                 # Add the derived type as first argument to the call
-                rebuilt['arguments'] = (rebuilt['name'].parent, ) + rebuilt['arguments']
+                rebuilt['arguments'] = insert_passed_object_argument(
+                    rebuilt['name'], new_proc_symbol, rebuilt['arguments']
+                )
 
                 # Add the subroutine to the list of symbols that need to be imported
                 if isinstance(new_proc_symbol.scope, Module):
@@ -703,7 +736,7 @@ class TypeboundProcedureCallTransformer(Transformer):
             new_proc_symbol = get_procedure_symbol_from_typebound_procedure_symbol(call.function, self.routine_name)
 
             if new_proc_symbol:
-                new_arguments = (call.function.parent,) + call.parameters
+                new_arguments = insert_passed_object_argument(call.function, new_proc_symbol, call.parameters)
                 expr_map[call] = call.clone(
                     function=new_proc_symbol.rescope(scope=kwargs['scope']),
                     parameters=new_arguments
